@@ -28,7 +28,7 @@ STUBS = ["np/pd facades in pylife.materiallaws.woehlercurve and pylife.utils.fun
 ASSUMPTIONS = ["all positive quantities lie in [1e-12, 1e12] (scatter ranges in [1, 1e3]) so that float arithmetic cannot overflow",
                "positive quantities (SD, ND, TN, TS, load, cycles) are symbolic in the log domain: the value is 10**e with e a real "
                "symbol, so products, quotients and powers with concrete exponents are linear arithmetic on exponents (exact)",
-               "slopes k_1, k_2 and the failure probabilities are concrete and enumerated",
+               "slopes k_1, k_2 are concrete and enumerated (quick) and additionally symbolic with 1 < k_1 <= 20, k_1 <= k_2 <= k_1 + 20 (thorough); failure probabilities are concrete",
                "clauses marked ~ carry a tolerance of 1e-9 in the exponent because the code multiplies by fl(-1/k) resp. uses "
                "the literal 0.39015207303618954 for 1/(2*ppf(0.9))"]
 OUTSIDE = "symbolic slopes; Series/DataFrame curves with index levels (broadcasting is C13); float rounding"
@@ -78,6 +78,12 @@ def cases(tier):
         for (p1, p2) in (((0.1, 0.9), (0.5, 0.025)) if q else itertools.permutations(PROBS, 2)):
             out.append({"kind": "scatter", "k1": k1, "k2": 2 * k1 - 1, "p1": p1, "p2": p2, "_weight": 3})
     out.append({"kind": "std"})
+    if not q:
+        # symbolic slopes (nonlinear arithmetic on exponents): k_1 > 1 and k_2 - k_1 >= 0 symbolic
+        for p in (0.5, 0.1):
+            out.append({"kind": "inverse", "k1": "sym", "k2": "sym", "p": p, "native": 0.5, "_weight": 5})
+            out.append({"kind": "inverse", "k1": "sym", "k2": math.inf, "p": p, "native": 0.5, "_weight": 5})
+        out.append({"kind": "monotone", "k1": "sym", "k2": "sym", "_weight": 5})
     return out
 
 
@@ -189,6 +195,15 @@ def run(ctx, case):
         return {"s": s}
 
     k1, k2 = case["k1"], case.get("k2", math.inf)
+    if k1 == "sym":
+        k1 = ctx.real("k_1")
+        ctx.assume(sym_and(k1 > 1, k1 <= 20))
+        ctx.hint(sym_or(k1 == 3, k1 == 5))
+    if isinstance(k2, str):
+        dk = ctx.real("dk")
+        ctx.assume(sym_and(dk >= 0, dk <= 20))
+        ctx.hint(sym_or(dk == 0, dk == 2))
+        k2 = k1 + dk
     if kind == "inverse":
         wc_s, d = _curve(ctx, k1, k2, native=case["native"])
         p = case["p"]
@@ -202,11 +217,12 @@ def run(ctx, case):
             out["S2"] = _scalar(S2)
         else:
             # infinite life only for k_2 = inf at or below the endurance limit
-            ctx.claim(math.isinf(k2) and bool(S < tr.SD) or (math.isinf(k2) and bool(S <= tr.SD)), "slopes", "infinite life although k_2 finite or load above SD")
+            k2inf = isinstance(k2, float) and math.isinf(k2)
+            ctx.claim(k2inf and bool(S <= tr.SD), "slopes", "infinite life although k_2 finite or load above SD")
         Nc = _bounded(ctx, "N")
         L = wc_s.woehler.load(Nc, p)
         N2 = wc_s.woehler.cycles(_scalar(L), p)
-        if math.isinf(k2) and bool(Nc > tr.ND):
+        if isinstance(k2, float) and math.isinf(k2) and bool(Nc > tr.ND):
             # beyond the knee of a curve with k_2 = inf the life is infinite: the load stays at the endurance limit
             ctx.claim(_close_log(ctx, L, tr.SD), "cycles(load(N))~N", (L, tr.SD))
         elif not _isinf(N2):
